@@ -9,7 +9,9 @@ package checks
 import (
 	"encoding/json"
 	"fmt"
+	"runtime/debug"
 	"strings"
+	"syscall"
 	"time"
 
 	zerr "github.com/DemoHn/Zn/pkg/error"
@@ -173,7 +175,7 @@ func init() {
 	mc.Register(&mc.Check{
 		ID:    "C05",
 		Level: "exploration",
-		Rule:  "E1 exhaustive: (a) every sequence of <= L symbols over a 35-symbol alphabet (6 keywords as units, all 12 punctuation marks, quotes, backtick, space, TAB, CR, LF, newline+indent, a name, a digit, + = #, NUL, U+0085, an astral character); (b) for every program of a corpus of valid renderings: truncation at every offset, deletion and duplication of every rune, insertion of every alphabet symbol at every offset (and all pairs of deletions on a subset); (c) the same inputs through ExecVarInputText, each text submitted twice in one process (termination; the second submission is answered like the first); (f) statement headers: every small expression (12 kinds) alone, in pairs and (6 kinds) in triples in the name slots of 以…遍历, 令, 输入, 得到, 如何, 恒为, 定义, 抛出; (e) deep nesting: 6 opening constructs ({ 【 a call, 以-chain, unary minus, 1 + {) repeated 1 .. 2 000 000 times around one operand, closed and unclosed: a tree or a positioned syntax error, and the process survives; (d) long lines: 14 faulty tails behind 6 kinds of padding (a long text, a long name, a long sum, blanks, a long comment, a long list) of every width 0..160 (0..400 thorough) on the only line, on the last line and on a middle line. Oracle: terminates (watchdog), returns a tree xor a *SyntaxError with code != 0 and 0 <= position <= length, any returned tree passes the completeness walker and belongs to a text that the tokeniser alone reads to its end, DisplayError succeeds and quotes a line of the source; the text is handed over as a slice of a larger array and neither it nor the guard element behind it is written to. Distinct by construction; non-trivial = not parsed successfully or longer than one symbol.",
+		Rule:  "E1 exhaustive: (a) every sequence of <= L symbols over a 35-symbol alphabet (6 keywords as units, all 12 punctuation marks, quotes, backtick, space, TAB, CR, LF, newline+indent, a name, a digit, + = #, NUL, U+0085, an astral character); (b) for every program of a corpus of valid renderings: truncation at every offset, deletion and duplication of every rune, insertion of every alphabet symbol at every offset (and all pairs of deletions on a subset); (c) the same inputs through ExecVarInputText, each text submitted twice in one process (termination; the second submission is answered like the first); (f) statement headers: every small expression (12 kinds) alone, in pairs and (6 kinds) in triples in the name slots of 以…遍历, 令, 输入, 得到, 如何, 恒为, 定义, 抛出; (e) deep nesting: 6 opening constructs ({ 【 a call, 以-chain, unary minus, 1 + {) repeated 1 .. 2 000 000 times around one operand, closed and unclosed: a tree or a positioned syntax error, and the process survives; (d) long lines: 14 faulty tails behind 6 kinds of padding (a long text, a long name, a long sum, blanks, a long comment, a long list) of every width 0..160 (0..400 thorough) on the only line, on the last line and on a middle line; (g) many lines: 4 line forms, 15 000 and 120 000 lines (the last form ends in a syntax error that is located and rendered): the processor time of the larger is at most 24 times that of the smaller (the ratio of two measurements of the process's own processor time, no wall clock). Oracle: terminates (watchdog), returns a tree xor a *SyntaxError with code != 0 and 0 <= position <= length, any returned tree passes the completeness walker and belongs to a text that the tokeniser alone reads to its end, DisplayError succeeds and quotes a line of the source; the text is handed over as a slice of a larger array and neither it nor the guard element behind it is written to. Distinct by construction; non-trivial = not parsed successfully or longer than one symbol.",
 		Assumptions: []string{
 			"a recovered Go runtime error leaking out of Parser.Parse as the error value is counted as a violation (it is not a syntax error with a position)",
 			"hang = no result for 20 s on an input whose normal cost is microseconds; confirmed in a fresh process",
@@ -388,12 +390,109 @@ func c05Run(c *mc.Ctx) {
 		c.CaseIdx(base + k)
 		d, o := depths[k%int64(len(depths))], opens[(k/int64(len(depths)))%int64(len(opens))]
 		closed := k/int64(len(depths)*len(opens)) == 0
+		if d >= 100000 {
+			c.AllowSlow(200) // megabytes of brackets: seconds on an idle machine
+		}
 		report(c05Deep(o.o, o.c, d, closed))
 		c.Eval(true)
 		c.Stat("deep_nesting_cases", 1)
 	}
 	c.Bound("deep_nesting", fmt.Sprintf("complete: %d bracket kinds x depths %v x closed/unclosed", len(opens), depths))
+	// (g) many lines: compiling a source of 8 n lines costs about 8 times what n lines cost, not 64 times
+	base += int64(len(depths) * len(opens) * 2)
+	c.Describe = func(i int64) json.RawMessage {
+		return mc.J(map[string]any{"part": "many-lines", "line_form": int(i - base)})
+	}
+	for k := 0; k < len(c05LineKinds); k++ {
+		if !c.Mine(base + int64(k)) {
+			continue
+		}
+		c.CaseIdx(base + int64(k))
+		c.AllowSlow(300)
+		report(c05ManyLines(k))
+		c.AllowSlow(0)
+		c.Note(c05ManyNote)
+		c.Eval(true)
+		c.Stat("many_lines_cases", 1)
+	}
+	c.Bound("many_lines", fmt.Sprintf("complete: %d line forms x {%d, %d} lines, processor time of the larger at most %d times that of the smaller", len(c05LineKinds), c05ManyN, 8*c05ManyN, c05ManyRatio))
 	c.Bound("long_lines", fmt.Sprintf("complete: %d faulty tails x %d paddings x 3 line positions x every padding width 0..%d", len(c05Tails), c05PadKinds, K))
+}
+
+// many lines of one form; the last entry ends in a line that is a syntax error (the error is
+// located and rendered in a text of that many lines)
+var c05LineKinds = []struct{ name, line, last string }{
+	{"assignments", "A = 1\n", "输出 7\n"},
+	{"calls-in-blocks", "如果 真：\n    （显示：A）\n", "输出 7\n"},
+	{"comments-and-texts", "// 说明\n令B = “文”\n", "输出 7\n"},
+	{"assignments-then-a-syntax-error", "A = 1\n", "输出 ）\n"},
+}
+
+const (
+	c05ManyN     = 15000
+	c05ManyRatio = 24
+)
+
+var c05ManyNote string
+
+func c05CPU() time.Duration {
+	var ru syscall.Rusage
+	_ = syscall.Getrusage(syscall.RUSAGE_SELF, &ru)
+	return time.Duration(ru.Utime.Nano() + ru.Stime.Nano())
+}
+
+// c05ManyLines compiles n and 8 n lines of one form (twice each, the cheaper run counts) and
+// compares the processor time spent: no clock on the wall is involved, and only the ratio counts.
+func c05ManyLines(kind int) (f *mc.Failure) {
+	lk := c05LineKinds[kind]
+	cs := mc.J(map[string]any{"part": "many-lines", "line_form": kind, "form": lk.name})
+	cost := func(n int) (best time.Duration, fl *mc.Failure) {
+		src := []rune("令A = 0\n" + strings.Repeat(lk.line, n) + lk.last)
+		for run := 0; run < 2; run++ {
+			debug.FreeOSMemory()
+			t0 := c05CPU()
+			var tree *syntax.Program
+			var err error
+			func() {
+				defer func() {
+					if p := recover(); p != nil {
+						fl = &mc.Failure{Kind: "panic", Bucket: "many-lines", Case: cs, Observed: fmt.Sprint(p)}
+					}
+				}()
+				tree, err = syntax.NewParser(src, zh.NewParserZH()).Parse()
+				if err != nil {
+					_ = exec.DisplayError(err)
+				}
+			}()
+			d := c05CPU() - t0
+			if fl != nil {
+				return 0, fl
+			}
+			wantErr := strings.Contains(lk.last, "）")
+			if (err != nil) != wantErr || (tree == nil) != wantErr {
+				return 0, &mc.Failure{Kind: "mismatch", Bucket: "many-lines", Case: cs, Expected: fmt.Sprintf("syntax error: %v", wantErr), Observed: fmt.Sprintf("tree nil=%v err=%v", tree == nil, clipS(fmt.Sprint(err), 200))}
+			}
+			if run == 0 || d < best {
+				best = d
+			}
+		}
+		return best, nil
+	}
+	small, fl := cost(c05ManyN)
+	if fl != nil {
+		return fl
+	}
+	big, fl := cost(8 * c05ManyN)
+	if fl != nil {
+		return fl
+	}
+	c05ManyNote = fmt.Sprintf("many lines (%s): %d lines %.2f s, %d lines %.2f s of processor time (%.1f times)", lk.name, c05ManyN, small.Seconds(), 8*c05ManyN, big.Seconds(), float64(big)/float64(small))
+	if big > time.Duration(c05ManyRatio)*small && big > 3*time.Second {
+		return &mc.Failure{Kind: "mismatch", Bucket: "many-lines-superlinear", Case: cs,
+			Expected: fmt.Sprintf("compiling %d lines costs about 8 times what %d lines cost (at most %d times)", 8*c05ManyN, c05ManyN, c05ManyRatio),
+			Observed: fmt.Sprintf("%d lines: %.2f s of processor time, %d lines: %.2f s (%.1f times)", c05ManyN, small.Seconds(), 8*c05ManyN, big.Seconds(), float64(big)/float64(small))}
+	}
+	return nil
 }
 
 // c05Deep: 输出 + open x depth + 1 + close x depth.
@@ -479,6 +578,17 @@ func c05Replay(c *mc.Ctx, raw json.RawMessage) {
 		}
 		if json.Unmarshal(raw, &dn) == nil {
 			if f := c05Deep(dn.Open, dn.Close, dn.Depth, dn.Closed); f != nil {
+				c.Fail(*f)
+			}
+		}
+		return
+	}
+	if cs.Part == "many-lines" {
+		var ml struct {
+			LineForm int `json:"line_form"`
+		}
+		if json.Unmarshal(raw, &ml) == nil && ml.LineForm >= 0 && ml.LineForm < len(c05LineKinds) {
+			if f := c05ManyLines(ml.LineForm); f != nil {
 				c.Fail(*f)
 			}
 		}
